@@ -29,14 +29,15 @@ type panicVal struct{ id int64 }
 type call struct {
 	G       int    `json:"g"`
 	I       int    `json:"i"`
-	Dur     string `json:"dur"`     // "0" | "yield" | "1ms" | "hold"
-	Outcome string `json:"outcome"` // scripted: ok | error | panic
+	Dur     string `json:"dur"`           // "0" | "yield" | "1ms" | "hold"
+	Outcome string `json:"outcome"`       // scripted: ok | error | panic | nested | nested-wrapped
+	Ctx     string `json:"ctx,omitempty"` // "" | cancelled | expired: state of the context passed to Execute
 	Invoke  int64  `json:"invoke"`
 	Ret     int64  `json:"ret"`
 	Entered bool   `json:"entered"` // the underlying job ran for this call
 	Enter   int64  `json:"enter"`
 	Exit    int64  `json:"exit"`
-	Class   string `json:"class"` // nil | joberr | othererr | panic-own | panic-other
+	Class   string `json:"class"` // nil | joberr | ctxerr | othererr | panic-own | panic-other
 	NsRun   int64  `json:"ns_run,omitempty"`
 	hold    chan struct{}
 	entered chan struct{}
@@ -47,6 +48,7 @@ type ctxKey struct{}
 // under is the underlying job: it records entry and exit on the logical clock, counts
 // executions in flight and ends the way the call's script says.
 type under struct {
+	busy        quartz.Job // another isolated job that is busy elsewhere (outcomes nested / nested-wrapped)
 	inflight    atomic.Int32
 	maxInflight atomic.Int32
 	runs        atomic.Int64
@@ -89,13 +91,44 @@ func (u *under) Execute(ctx context.Context) error {
 		return errJob
 	case "panic":
 		panic(panicVal{int64(c.G)<<32 | int64(c.I)})
+	case "nested", "nested-wrapped":
+		// the job's work is to run a shared isolated job which is busy elsewhere: it ends with
+		// that job's fail-fast error (plain or wrapped)
+		if u.busy != nil {
+			err := u.busy.Execute(context.Background())
+			if err != nil && c.Outcome == "nested-wrapped" {
+				err = fmt.Errorf("inner job: %w", err)
+			}
+			return err
+		}
 	}
 	return nil
+}
+
+// busyJob returns an isolated job that is held busy until release() is called.
+func busyJob() (quartz.Job, func()) {
+	inner := &under{}
+	b := job.NewIsolatedJob(inner)
+	h := &call{G: -1, Dur: "hold", Outcome: "ok", hold: make(chan struct{}), entered: make(chan struct{})}
+	done := make(chan struct{})
+	go func() { defer close(done); invoke(b, h) }()
+	<-h.entered
+	return b, func() { close(h.hold); <-done }
 }
 
 // invoke performs one Execute call and classifies what came back.
 func invoke(iso quartz.Job, c *call) {
 	ctx := context.WithValue(context.Background(), ctxKey{}, c)
+	switch c.Ctx {
+	case "cancelled":
+		var cancel context.CancelFunc
+		ctx, cancel = context.WithCancel(ctx)
+		cancel()
+	case "expired":
+		var cancel context.CancelFunc
+		ctx, cancel = context.WithDeadline(ctx, time.Now().Add(-time.Second))
+		defer cancel()
+	}
 	defer func() {
 		if r := recover(); r != nil {
 			c.Ret = tick()
@@ -114,16 +147,19 @@ func invoke(iso quartz.Job, c *call) {
 		c.Class = "nil"
 	case errors.Is(err, errJob):
 		c.Class = "joberr"
+	case errors.Is(err, context.Canceled) || errors.Is(err, context.DeadlineExceeded):
+		c.Class = "ctxerr"
 	default:
 		c.Class = "othererr"
 	}
 }
 
 func isolatedStress(G, N int, seed int64) {
-	u := &under{}
+	busy, releaseBusy := busyJob()
+	u := &under{busy: busy}
 	iso := job.NewIsolatedJob(u)
 	durs := []string{"0", "yield", "1ms"}
-	outs := []string{"ok", "error", "panic"}
+	outs := []string{"ok", "error", "panic", "ok", "error", "panic", "nested", "nested-wrapped"}
 	hist := make([][]*call, G)
 	var start, wg sync.WaitGroup
 	start.Add(1)
@@ -139,7 +175,14 @@ func isolatedStress(G, N int, seed int64) {
 			case x < 45:
 				d = durs[1]
 			}
-			hist[g][i] = &call{G: g, I: i, Dur: d, Outcome: outs[rng.Intn(3)]}
+			cx := ""
+			switch x := rng.Intn(100); {
+			case x < 3:
+				cx = "cancelled"
+			case x < 4:
+				cx = "expired"
+			}
+			hist[g][i] = &call{G: g, I: i, Dur: d, Outcome: outs[rng.Intn(len(outs))], Ctx: cx}
 		}
 		wg.Add(1)
 		go func() {
@@ -159,6 +202,7 @@ func isolatedStress(G, N int, seed int64) {
 	// everything has returned: a fresh call must be admitted, whatever the last outcome was
 	fresh := &call{G: G, I: 0, Dur: "0", Outcome: "ok"}
 	invoke(iso, fresh)
+	releaseBusy()
 	for g := 0; g < G; g++ {
 		for _, c := range hist[g] {
 			emit(c)
@@ -214,15 +258,49 @@ func isolatedHold() {
 		emit(res)
 	}
 	// sequential series: every call must be admitted (the previous one has returned)
-	u := &under{}
+	busy, releaseBusy := busyJob()
+	u := &under{busy: busy}
 	iso := job.NewIsolatedJob(u)
 	var seq []*call
-	for i, o := range []string{"ok", "error", "ok", "panic", "ok", "panic", "panic", "error", "error", "ok"} {
-		c := &call{G: 0, I: i, Dur: "0", Outcome: o}
+	type st struct{ o, cx string }
+	for i, x := range []st{{"ok", ""}, {"error", ""}, {"ok", ""}, {"panic", ""}, {"ok", ""}, {"panic", ""}, {"panic", ""}, {"error", ""},
+		{"error", ""}, {"ok", ""}, {"ok", "cancelled"}, {"ok", ""}, {"error", "expired"}, {"ok", ""}, {"panic", "cancelled"}, {"ok", ""},
+		{"nested", ""}, {"ok", ""}, {"nested-wrapped", ""}, {"ok", ""}, {"nested", "cancelled"}, {"ok", ""}} {
+		c := &call{G: 0, I: i, Dur: "0", Outcome: x.o, Ctx: x.cx}
 		invoke(iso, c)
 		seq = append(seq, c)
 	}
+	releaseBusy()
 	emit(map[string]any{"scenario": "sequential", "calls": seq, "max_inflight": u.maxInflight.Load()})
+
+	// chained isolated jobs: `report` is an isolated job whose work is to run the shared isolated job
+	// `export`; while export is busy elsewhere report is executed once (admitted, ends with export's
+	// fail-fast error); then nothing runs report any more and its next call must be admitted.
+	for _, wrap := range []bool{false, true} {
+		export, releaseExport := busyJob()
+		ru := &under{busy: export}
+		report := job.NewIsolatedJob(ru)
+		o := "nested"
+		if wrap {
+			o = "nested-wrapped"
+		}
+		first := &call{G: 0, I: 0, Dur: "0", Outcome: o}
+		invoke(report, first)
+		second := &call{G: 0, I: 1, Dur: "0", Outcome: "ok"}
+		invoke(report, second)
+		releaseExport()
+		third := &call{G: 0, I: 2, Dur: "0", Outcome: o} // export is free now: runs it for real
+		invoke(report, third)
+		// directly nested: NewIsolatedJob(NewIsolatedJob(job))
+		nu := &under{}
+		nested := job.NewIsolatedJob(job.NewIsolatedJob(nu))
+		n1 := &call{G: 1, I: 0, Dur: "0", Outcome: "error"}
+		invoke(nested, n1)
+		n2 := &call{G: 1, I: 1, Dur: "0", Outcome: "ok"}
+		invoke(nested, n2)
+		emit(map[string]any{"scenario": "chained", "wrapped": wrap, "calls": []*call{first, second, third, n1, n2},
+			"max_inflight": ru.maxInflight.Load()})
+	}
 }
 
 // schedJob wraps `under` for the scheduler scenario: each execution takes `dur`.
